@@ -69,7 +69,7 @@ IN_KINDS = ['raw', 'coinbase', 'from_id', 'p2pkh', 'p2pk', 'multisig', 'spend', 
 OUT_KINDS = ['p2pkh', 'p2sh', 'claim', 'update', 'support', 'support_data', 'purchase', 'return_data', 'p2pk', 'p2w', 'raw']
 
 REQUIRED_HITS = (
-    ['B1.checked', 'B2.fields_checked', 'B2.reserialize_checked', 'B3.built_id_checked', 'B3.parsed_id_checked',
+    ['B2.flow_object_vs_raw_checked', 'flow.exact', 'flow.dust_surplus', 'flow.change', 'B1.checked', 'B2.fields_checked', 'B2.reserialize_checked', 'B3.built_id_checked', 'B3.parsed_id_checked',
      'B3.hash_checked', 'B4.checked', 'S.B2.fields_checked', 'S.B3.id_checked', 'S.B3.sans_segwit_checked',
      'M.fixture_checked', 'M.known_txid_checked', 'M.segwit_variant_checked', 'build.incremental', 'build.late_fields',
      'payload.claim_object', 'payload.support_object', 'payload.raw_bytes', 'witness.nonempty', 'witness.all_empty']
@@ -395,6 +395,8 @@ def gen_cases(rng, tier, shard, nshards):
             c = dict(c)
             c['seed'] = rng.getrandbits(48)
             yield c
+    for _ in range(3 if tier == 'quick' else 60):
+        yield {'fam': 'flow', 'seed': rng.getrandbits(48)}
     nrand = 200 if tier == 'quick' else 6000
     for _ in range(nrand):
         yield {'fam': 'rand', 'seed': rng.getrandbits(48), 'count': 30}
@@ -1182,5 +1184,95 @@ def execute(rec, case):
             if rec.out_of_time():
                 break
             run_model(rec, gen_model(rng), 'rand')
+    elif fam == 'flow':
+        from vlib import walletfx
+        walletfx.run(_flow(rec, case), timeout=600)
     else:
         raise ValueError(fam)
+
+
+# ------------------------------------------------------------------------------ transactions the wallet itself builds (added after
+# seeded break C05-B: caches of the serialisation must follow outputs that are edited between building and signing)
+async def _flow(rec, case):
+    """Transaction.create / claim_create / support / pay under three funding situations (change returned, surplus below dust, funded
+    exactly), then - as the daemon's publish flow does - the claim output is edited and its script regenerated, sizes/ids are read in
+    between, the transaction is signed; finally what the OBJECT says (inputs, outputs, scripts, amounts) must be what tx.raw encodes."""
+    from vlib import walletfx
+    from lbry.wallet import Transaction, Output, Input
+    from lbry.schema.claim import Claim
+    r = random.Random(case['seed'])
+    random.seed(case['seed'])
+    rate = r.choice([1, 50, 1000])
+    fx = await walletfx.Fx.open(n_accounts=1, fee_per_byte=rate)
+    try:
+        acc = fx.accounts[0]
+        addrs = await fx.addresses(acc)
+        for funding in ['change', 'dust_surplus', 'exact', 'exact', 'two_inputs_exact']:
+            for kind in ['claim', 'claim_then_channel_sign', 'support', 'pay']:
+                name = 'n' * r.choice([1, 10, 60])
+                claim = Claim()
+                claim.stream.title = 't' * r.choice([0, 5, 200])
+                amount = r.randrange(10 ** 5, 10 ** 7)
+                holding = addrs[r.randrange(len(addrs))]
+                if kind.startswith('claim'):
+                    out = Output.pay_claim_name_pubkey_hash(amount, name, claim, fx.ledger.address_to_hash160(holding))
+                elif kind == 'support':
+                    out = Output.pay_support_pubkey_hash(amount, name, r.randbytes(20).hex(), fx.ledger.address_to_hash160(holding))
+                else:
+                    out = Output.pay_pubkey_hash(amount, r.randbytes(20))
+                cost = (10 + 8 + 1 + len(out.script.source) + (2 if len(out.script.source) >= 253 else 0)) * rate + amount
+                nin = 2 if funding == 'two_inputs_exact' else 1
+                need = cost + nin * 148 * rate
+                extra = {'change': 10 ** 7, 'dust_surplus': r.randrange(1, 900), 'exact': 0, 'two_inputs_exact': 0}[funding]
+                per = (need + extra) // nin
+                amts = [per] * (nin - 1) + [need + extra - per * (nin - 1)]
+                _, txos = await fx.fund([(0, 0, r.randrange(20), a) for a in amts], height=10)
+                tx = await Transaction.create([Input.spend(t) for t in txos], [out], [acc], acc, sign=False)
+                _ = tx.size if r.random() < 0.5 else None            # reading sizes / ids in between is legal and fills caches
+                if kind.startswith('claim'):
+                    txo = tx.outputs[0]
+                    txo.claim.stream.title = 'edited ' * r.choice([1, 3, 40])
+                    txo.claim.stream.source.sd_hash = r.randbytes(48).hex()
+                    txo.script.generate()
+                    if r.random() < 0.5:
+                        _ = tx.id
+                        txo.claim.stream.description = 'second edit'
+                        txo.script.generate()
+                await tx.sign([acc])
+                rec.hit('flow.' + funding)
+                rec.hit('flow.kind.' + kind)
+                raw = tx.raw
+                vcase = {'fam': 'flow', 'seed': case['seed']}
+                try:
+                    dec = R.decode(raw, strict=True)
+                except Exception as e:  # noqa
+                    rec.violation('C05/B4/flow/reference-cannot-decode', f'{kind}/{funding}: reference decoder rejects tx.raw: {e!r}', {'raw': raw}, case=vcase)
+                    continue
+                rec.hit('B2.flow_object_vs_raw_checked')
+                want_outs = [(o.amount, bytes(o.script.source)) for o in tx.outputs]
+                got_outs = [(o.amount, bytes(o.script)) for o in dec.outputs]
+                want_ins = [(i.txo_ref.tx_ref.hash, i.txo_ref.position, bytes(i.script.source), i.sequence) for i in tx.inputs]
+                got_ins = [(i.prev_hash, i.prev_index, bytes(i.script), i.sequence) for i in dec.inputs]
+                if want_outs != got_outs:
+                    k = [a == b for a, b in zip(want_outs, got_outs)].index(False) if len(want_outs) == len(got_outs) else -1
+                    rec.violation('C05/B2/flow/raw-does-not-encode-the-objects-outputs',
+                                  f'{kind}/{funding} (rate {rate}): tx.raw encodes an output that differs from tx.outputs[{k}] '
+                                  f'(edited after building, before signing)', {'kind': kind, 'funding': funding, 'index': k,
+                                                                               'object_script': want_outs[k][1] if k >= 0 else None,
+                                                                               'raw_script': got_outs[k][1] if k >= 0 else None}, case=vcase)
+                    continue
+                if want_ins != got_ins:
+                    rec.violation('C05/B2/flow/raw-does-not-encode-the-objects-inputs', f'{kind}/{funding}: tx.raw inputs differ from tx.inputs', {}, case=vcase)
+                    continue
+                if tx.id != R.txid(dec):
+                    rec.violation('C05/B3/flow/txid-not-hash-of-raw', f'{kind}/{funding}: tx.id {tx.id} is not the hash of the legacy encoding of tx.raw '
+                                  f'{R.txid(dec)}', {}, case=vcase)
+                    continue
+                again = Transaction(raw)
+                if [bytes(o.script.source) for o in again.outputs] != [x[1] for x in want_outs] or again.id != tx.id:
+                    rec.violation('C05/B2/flow/parse-back-differs', f'{kind}/{funding}: Transaction(tx.raw) differs from the object', {}, case=vcase)
+                rec.case(['flow', kind, funding, rate, len(raw) // 50], sample={'family': 'flow', 'kind': kind, 'funding': funding,
+                                                                                'rate': rate, 'inputs': len(tx.inputs), 'outputs': len(tx.outputs)}
+                         if funding == 'exact' and kind == 'claim' else None)
+    finally:
+        await fx.close()
